@@ -359,6 +359,9 @@ def escape_decision_table(ctx, esc, pname, triggers, anywhere):
 
 
 def run(ctx):
+    from ..lints import constructors_leave_arguments
+    for rel_ in (CIF, BCIF, COMP):
+        constructors_leave_arguments(ctx, rel_, "R2.constructor-leaves-arguments")
     from ..lints import dtype_family_tests
     # how a column is written (text / number formatting) is decided by its dtype family: all widths of it
     dtype_family_tests(ctx, CIF, "R1.dtype-family-test", 3)
@@ -628,6 +631,7 @@ def run(ctx):
         owner, eq = idx.resolve(cls, "__eq__")
         if eq is not None and owner.name == cls:
             lazy.check_eq_through_getitem(ctx, "R2.eq-through-getitem", ci.rel, cls, eq)
+            lazy.check_eq_key_sets(ctx, "R2.eq-key-sets", ci.rel, cls, eq)
     ctx.floor("lazy-containers", n_lazy, 3)
 
     # lstrip used to undo a prefix
@@ -723,6 +727,9 @@ def run(ctx):
 
 
 MUTANTS = [
+    Mutant("container-eq-own-keys-only", COMP, "        if set(self.keys()) != set(other.keys()):\n            return False\n", "", "R2.eq-key-sets"),
+    Mutant("category-init-coerces-in-place", CIF, "            columns = {\n                key: CIFColumn(col) if not isinstance(col, CIFColumn) else col\n                for key, col in columns.items()\n            }\n",
+           "            for key, col in columns.items():\n                if not isinstance(col, CIFColumn):\n                    columns[key] = CIFColumn(col)\n", "R2.constructor-leaves-arguments"),
     Mutant("token-closed-by-any-quote", CIF, "                if word.endswith(separator) and len(word) > 1:\n",
            "                if word.endswith((\"'\", '\"')) and len(word) > 1:\n", "R1.closing-quote-is-opening-quote"),
     Mutant("token-split-on-single-quote", CIF, "                word, _, line = stripped_line[1:].partition(separator)\n",
